@@ -5,11 +5,43 @@ import sys
 import traceback
 
 
+_SURROUNDINGS_DONE = []
+
+
 def mod(name):
     """The torrentfile submodule (the package re-exports functions named like
     some submodules, so 'from torrentfile import recheck' is not the module)."""
     import importlib
-    return importlib.import_module("torrentfile." + name)
+    m = importlib.import_module("torrentfile." + name)
+    if not _SURROUNDINGS_DONE:
+        _SURROUNDINGS_DONE.append(True)
+        _apply_surroundings(importlib)
+    return m
+
+
+def _apply_surroundings(importlib):
+    """Process-level surroundings chosen per case by the harness (environment variables VF_VERBOSE / VF_HOOKS): what a
+    host application or an earlier '-v' command may have left behind.  No property lets a result depend on them."""
+    if os.environ.get("VF_VERBOSE") == "1":
+        # exactly what '-v' does: root logger at DEBUG with a handler on stderr, package debug flag on
+        try:
+            importlib.import_module("torrentfile.cli").Config.activate_logger()
+        except Exception:
+            import logging
+            logging.getLogger().setLevel(logging.DEBUG)
+    if os.environ.get("VF_HOOKS") == "1":
+        # observers that only look: they return None, like print or list.append
+        seen = []
+        try:
+            importlib.import_module("torrentfile.recheck").Checker.register_callback(lambda *a, **k: seen.append(a) and None)
+        except Exception:
+            pass
+        t = importlib.import_module("torrentfile.torrent")
+        for cls in ("TorrentFile", "TorrentFileV2", "TorrentFileHybrid", "TorrentAssembler"):
+            try:
+                getattr(t, cls).set_callback(lambda *a, **k: seen.append(a) and None)
+            except Exception:
+                pass
 
 
 def _mods():
@@ -34,10 +66,13 @@ class Outcome:
         return type(self.exc).__name__ if self.exc is not None else None
 
 
-def cli_execute(argv):
-    """Run torrentfile.cli.execute(argv); SystemExit is returned as exception."""
+def cli_execute(argv, no_stderr=False):
+    """Run torrentfile.cli.execute(argv); SystemExit is returned as exception.
+    no_stderr: the process has no usable standard error (sys.stderr is None, as under pythonw or with fd 2 closed)."""
     cli = _mods()[0]
     saved = sys.stdout, sys.stderr
+    if no_stderr:
+        sys.stderr = None
     try:
         return Outcome(ret=cli.execute(list(argv)))
     except SystemExit as exc:
@@ -50,7 +85,7 @@ def cli_execute(argv):
 
 def create(route, path, outfile, piece_length=None, progress=1, announce=None, url_list=None,
            httpseeds=None, private=False, source=None, comment=None, align=False, cli_prefix=(), swallowed=None,
-           magnet=False, pl_spelling=None):
+           magnet=False, pl_spelling=None, reuse=None):
     """Create a metafile through one of the routes; returns Outcome with raw bytes.
     swallowed: None | "announce" | "url_list" | "httpseeds" - the content path is not given on its own but as the
     last value of that list-valued option (the documented recovery in MetaFile.__init__)."""
@@ -95,7 +130,11 @@ def create(route, path, outfile, piece_length=None, progress=1, announce=None, u
                 t = torrent.TorrentAssembler(meta_version="2", **kw)
             else:
                 t = torrent.TorrentAssembler(meta_version="3", **kw)
+            if reuse == "assemble-again":
+                t.assemble()                    # the object is asked to assemble a second time before it writes
             out, _meta = t.write()
+            if reuse == "write-again":
+                out, _meta = t.write()          # ... or to write twice
         else:
             argv = list(cli_prefix) + ["create", "--meta-version", route[-1]] + (["-o", outfile] if outfile is not None else []) + \
                 ["--prog", str(progress)]
@@ -153,6 +192,29 @@ def recheck_lib(metafile, content):
         return _as_number(Outcome(ret=recheck.Checker(metafile, content).results()))
     except BaseException as exc:  # noqa
         return Outcome(exc=exc, tb=traceback.format_exc())
+
+
+def recheck_lib_reused(metafile, content, between, partial=False):
+    """One Checker object used twice: a first pass on the content as it is (optionally abandoned after the first
+    piece), then `between()` changes the content, then the judged pass on the SAME object.
+    Returns (first pass result or exception name, Outcome of the second pass)."""
+    recheck = _mods()[4]
+    try:
+        chk = recheck.Checker(metafile, content)
+        first = None
+        try:
+            if partial:
+                it = chk.iter_hashes()
+                next(it, None)
+                del it
+            else:
+                first = _as_number(Outcome(ret=chk.results())).ret
+        except BaseException as exc:  # noqa
+            first = type(exc).__name__
+        between()
+        return first, _as_number(Outcome(ret=chk.results()))
+    except BaseException as exc:  # noqa
+        return None, Outcome(exc=exc, tb=traceback.format_exc())
 
 
 def recheck_cli(metafile, content, spelling="recheck", prefix=()):
